@@ -5,6 +5,24 @@ HERE = os.path.dirname(os.path.dirname(os.path.abspath(__file__)))
 ALL = ["C%02d" % i for i in range(1, 21)]
 
 CHECKS = {
+ "C01": dict(
+    category="model_checking", design_ref="DESIGN.md §4 C01",
+    text="OpcPackage.tla models the physical package, the loader (reachability walk, case-insensitive content-type lookup, dropped dangling "
+         "relationships) and the writer (Impl layer) with SaveOK as the property. MC_OpcPackage builds every package within bounds "
+         "(builder state machine, all relationship orders and reference spellings, Default/Override/case choices) and checks the design "
+         "invariants; every sealed package is materialised as zip path, stream and directory, run through open/save/open/save of the "
+         "real library, and the projected trace is validated clause by clause by TLC. Corpus decks are validated the same way.",
+    note="Trusted: TLC, zipfile, lxml, the projection (zip read with zipfile+lxml only; loaded package via iter_parts/rels). "
+         "XML equivalence = prefix-independent canonical form modulo whitespace-only text between elements. Bounded by config constants.",
+    technique="TLA+ state machine explored by TLC; TLC-generated packages replayed into the real library; observed traces validated by TLC"),
+ "C16": dict(
+    category="fault_enumeration", design_ref="DESIGN.md §4 C16",
+    text="Same spec as C01 plus fault actions (dangling targets, missing content types/stream/package rels, non-zip, truncated, missing "
+         "path) on TLC-built skeletons, and byte-level injection of every irregularity at every applicable location of corpus decks "
+         "(singles everywhere, sampled pairs), in path/stream/directory form. The expected outcome (loaded package or exception class) "
+         "is computed by TLC from the projected faulted package (OpenOf/ApiOutcome); slide order and save/touch/save sequences included.",
+    note="Trusted: as C01; fault injectors (zipfile+lxml). Slide traversal judged only when every sldId leads to a present slide part.",
+    technique="TLA+ spec as outcome oracle + exhaustive single-fault enumeration per location, pairs sampled; traces validated by TLC"),
  "C19": dict(
     category="model_checking", design_ref="DESIGN.md §4 C19",
     text="PackUri.tla defines part-name arithmetic (Dir/Filename/Ext/Idx/Member/RelsUri, RFC 3986 Resolve, RelRef); TLC proves the "
